@@ -5,7 +5,7 @@
 From Coq Require Import List NArith ZArith Bool Sorted Permutation.
 From Storage Require Import Base.Bytes Codec.CodecBase Codec.Varint Codec.VarintProofs
   Codec.CompoundKey Codec.CompoundKeyProofs Codec.FieldCodec Codec.FieldCodecProofs
-  Codec.StrOrderProofs Codec.Containers Codec.ContainersProofs.
+  Codec.StrOrderProofs Codec.Containers Codec.ContainersProofs Codec.Persist Codec.PersistProofs Codec.Getters Codec.GettersProofs.
 Import ListNotations.
 Open Scope N_scope.
 
@@ -195,3 +195,115 @@ Theorem setter_effect : forall (c : checker) (op : fop) (b b' : bucket),
             forall k, k <> op_name op -> a_lookup k b' = a_lookup k b.
 Proof. exact apply_op_proceeds. Qed.
 Print Assumptions setter_effect.
+
+(* ---- restricted persists through PersistContext over a chain of stores ------------------------- *)
+(* Model Codec/Persist.v: one persist of an entity through a store (level 0 of the chain) runs a
+   program of setter calls on the context the store built and on the contexts derived from it by
+   GetParentContext (the ancestor stores' parts of the entity) and WithFieldOverrides; the buckets of
+   all stores of the chain are sub-buckets, at the stores' key paths, of the root store's entity
+   bucket b.  [persist_trace] lists the setter calls with the bucket path and the checker of the
+   context each goes through; [w_addr] is the key path of the field a call names. *)
+
+(* Touches only: a node (a field of any store of the chain, or anything else stored below the
+   entity) that no proceeding call's field contains or lies in keeps its content - raw bytes or
+   whole sub-bucket.  A call proceeds when the checker of its context is nil or selects its field
+   (SetNil takes no checker).  A Create may besides make the empty buckets on the way to the
+   store's entity bucket. *)
+Theorem persist_frame : forall (ch : chain) (c : checker) (cr : bool) (id : str) (prog : list pstmt)
+    (b b' : bucket) (a : path),
+  persist ch c cr id prog b = Ok b' ->
+  (cr = true -> is_prefix a (level_path ch 0) = false) ->
+  (forall w, In w (persist_trace ch c cr id prog) -> w_proceeds w = true -> comparable a (w_addr w) = false) ->
+  node_at a (Sub b') = node_at a (Sub b).
+Proof. exact persist_frame_lemma. Qed.
+Print Assumptions persist_frame.
+
+(* Exactly the selected: the program's effect is that of the proceeding calls made without any
+   checker, in order, each in the bucket of its context's store *)
+Theorem persist_selected : forall (ch : chain) (prog : list pstmt) (cs : slots) (b : bucket) (cs' : slots) (b' : bucket),
+  run ch prog cs b = Ok (cs', b') ->
+  apply_writes (map unrestrict (filter w_proceeds (trace ch prog cs))) b = Ok b'.
+Proof. exact persist_selected_lemma. Qed.
+Print Assumptions persist_selected.
+
+(* GetParentContext hands the checker on: without WithFieldOverrides every call of the persist, on
+   whichever store's part of the entity, is under the checker the store was given *)
+Theorem derived_contexts_share_checker : forall (ch : chain) (c : checker) (cr : bool) (id : str) (prog : list pstmt),
+  forallb (fun st => negb (is_override st)) prog = true ->
+  Forall (fun w => w_checker w = c) (persist_trace ch c cr id prog).
+Proof. exact derived_contexts_share_checker_lemma. Qed.
+Print Assumptions derived_contexts_share_checker.
+
+(* ... so a persist restricted by checker c touches, in the parent stores' parts as in the store's
+   own, only fields c selects *)
+Theorem restricted_persist_frame : forall (ch : chain) (c : checker) (cr : bool) (id : str) (prog : list pstmt)
+    (b b' : bucket) (a : path),
+  forallb (fun st => negb (is_override st)) prog = true ->
+  persist ch c cr id prog b = Ok b' ->
+  (cr = true -> is_prefix a (level_path ch 0) = false) ->
+  (forall w, In w (persist_trace ch c cr id prog) -> op_proceeds c (w_op w) = true -> comparable a (w_addr w) = false) ->
+  node_at a (Sub b') = node_at a (Sub b).
+Proof. exact restricted_persist_frame_lemma. Qed.
+Print Assumptions restricted_persist_frame.
+
+(* ---- readers with a default, string-list emptiness, deep copy ----------------------------------- *)
+(* Model Codec/Getters.v of GetStringWithDefault / GetStringOrError / GetBoolWithDefault /
+   GetInt32WithDefault / GetInt64WithDefault / GetTimeOrDefault / GetTimeOrError / IsStringListEmpty /
+   ForEachTypedBucket / TypedBucket.Copy. *)
+
+(* a stored value is what the getter with a default of its type returns, whatever the default
+   (an int32 also through the int64 getter); no error is flagged *)
+Theorem default_getters_roundtrip : forall (c : checker) (name : str) (v : scalar) (b b' : bucket),
+  wf_scalar v = true -> proceed c name = true -> apply_op c (OpScalar name v) b = Ok b' ->
+  match v with
+  | SBool x => forall d, get_bool_with_default name d b' = x
+  | SInt32 z => forall d, get_int32_with_default name d b' = z /\ get_int64_with_default name d b' = z
+  | SInt64 z => forall d, get_int64_with_default name d b' = z
+  | SString s => (forall d, get_string_with_default name d b' = SVal (Some s)) /\
+                 get_string_or_error name b' = (SVal (Some s), false)
+  | STime sec nsec => (forall d, get_time_or_default name d b' = (sec, nsec)) /\
+                      get_time_or_error name b' = ((sec, nsec), false)
+  | _ => True
+  end.
+Proof. exact default_getters_stored. Qed.
+Print Assumptions default_getters_roundtrip.
+
+(* null stays distinguishable: a null field (the bytes SetNil / a nil pointer stores) and an absent
+   one (no key, or the key of a sub-bucket) give the default, and the *OrError getters flag it *)
+Theorem default_getters_null_or_absent : forall (name : str) (b : bucket),
+  get_bytes name b = [] \/ get_bytes name b = encode_scalar SNil ->
+  (forall d, get_string_with_default name d b = SVal (Some d)) /\
+  get_string_or_error name b = (SVal (Some []), true) /\
+  (forall d, get_bool_with_default name d b = d) /\
+  (forall d, get_int32_with_default name d b = d) /\
+  (forall d, get_int64_with_default name d b = d) /\
+  (forall d, get_time_or_default name d b = d) /\
+  get_time_or_error name b = ((0%Z, 0), true).
+Proof. exact default_getters_null. Qed.
+Print Assumptions default_getters_null_or_absent.
+
+(* IsStringListEmpty says whether the list read back is empty *)
+Theorem string_list_empty_iff : forall (name : str) (b : bucket),
+  is_string_list_empty name b = true <-> get_string_list name b = [].
+Proof. exact is_string_list_empty_iff. Qed.
+Print Assumptions string_list_empty_iff.
+
+(* ForEachTypedBucket visits exactly the sub-buckets *)
+Theorem for_each_typed_bucket_spec : forall (k : str) (c b : bucket),
+  In (k, c) (child_buckets b) <-> In (k, Sub c) b.
+Proof. exact child_buckets_spec. Qed.
+Print Assumptions for_each_typed_bucket_spec.
+
+(* Copy into an empty bucket is a deep copy: the whole source - values, sub-buckets to any depth -
+   reads back equal; with a filter, the source without the entries (and whole sub-trees) whose key
+   path the filter rejects.  [canon]: what a bbolt bucket can hold (keys ascending and non-empty,
+   keys of plain values and values within bbolt's size limits). *)
+Theorem copy_roundtrip : forall b : bucket,
+  canon (Sub b) -> copy_bucket (fun _ => true) b [] = Ok b.
+Proof. exact copy_whole. Qed.
+Print Assumptions copy_roundtrip.
+
+Theorem copy_filtered_roundtrip : forall (filter : list str -> bool) (b : bucket),
+  canon (Sub b) -> copy_bucket filter b [] = Ok (prune_entries filter [] b).
+Proof. exact copy_filtered. Qed.
+Print Assumptions copy_filtered_roundtrip.
